@@ -1,0 +1,35 @@
+//! Verification hooks (only compiled with the `verif-hooks` cargo feature).
+//!
+//! A process-global, optional async callback that an external model-checking
+//! harness installs so that it can park a task at a named point ("pause point")
+//! and decide when it continues. With no callback installed `pause` returns
+//! immediately. Nothing in here is compiled into normal builds.
+
+use std::future::Future;
+use std::pin::Pin;
+use std::sync::{Arc, RwLock};
+
+/// Future returned by the installed callback.
+pub type PauseFuture = Pin<Box<dyn Future<Output = ()> + Send>>;
+
+/// Callback type: receives the label of the pause point.
+pub type PauseFn = Arc<dyn Fn(&'static str) -> PauseFuture + Send + Sync>;
+
+static PAUSE_FN: RwLock<Option<PauseFn>> = RwLock::new(None);
+
+/// Install (or clear, with `None`) the global pause callback.
+pub fn set_pause_fn(f: Option<PauseFn>) {
+    *PAUSE_FN.write().unwrap_or_else(|e| e.into_inner()) = f;
+}
+
+/// Pause point. No-op unless a callback is installed.
+pub async fn pause(label: &'static str) {
+    let f = PAUSE_FN
+        .read()
+        .unwrap_or_else(|e| e.into_inner())
+        .as_ref()
+        .cloned();
+    if let Some(f) = f {
+        f(label).await;
+    }
+}
